@@ -774,7 +774,7 @@ func work(ctx *runner.Ctx) {
 		{Kind: "slice", Bits: 8, N: 2, ElKind: "uint"}, {Kind: "slice", Bits: 8, N: 3, ElKind: "uint"},
 	}
 	if ctx.Quick() {
-		pool = []TDesc{pool[0], pool[1], pool[2], pool[4], pool[7], pool[8], pool[9], pool[11], pool[12], pool[13], pool[15]}
+		pool = []TDesc{pool[0], pool[1], pool[2], pool[4], pool[7], pool[8], pool[9], pool[10], pool[11], pool[12], pool[13], pool[15]}
 	}
 	memberVals := func(t TDesc) [][]string {
 		switch t.Kind {
@@ -826,7 +826,7 @@ func work(ctx *runner.Ctx) {
 	} else {
 		// 3 members: restrict the pool further
 		save := pool
-		pool = []TDesc{save[0], save[1], save[8], save[7], save[5]}
+		pool = []TDesc{save[0], save[1], save[9], save[8], save[5], save[7]} // bool, int8, [3]uint8, [2]uint8, uint64, int65
 		rec(nil, 0, 3)
 		pool = save
 	}
